@@ -158,6 +158,8 @@ def maxsize(cfg, total, free_positions):
         dst, src = [0x02, 0x23], [0x21]
         k = total - (2 + 3 + 1 + 2 + 2)
         pay = [(0x7E if i % 5 == 0 else 0x7D if i % 7 == 0 else (i * 37 + 11) & 0xFF) for i in range(k)]
+        if cfg[1] and not cfg[0]:          # abort detection without stuffing: an escape octet directly before a flag is outside the statement's domain
+            pay = [(0x7C if (o == 0x7D and (i + 1 >= k or pay[i + 1] == 0x7E or i + 1 in [p if p >= 0 else k + p for p in free_positions])) else o) for i, o in enumerate(pay)]
         for j, p in enumerate(free_positions):
             pay[p if p >= 0 else k + p] = sym_octet(f"p{j}")
         ctrl = sym_octet("c")
